@@ -844,7 +844,15 @@ PPL::Grid::is_bounded() const {
     }
     for (dimension_type row = gen_sys.num_rows(); row-- > 0; ) {
       const Grid_Generator& gen = gen_sys[row];
-      if (gen.is_line_or_parameter() || gen != first_point) {
+      if (gen.is_line_or_parameter()) {
+        // A line or parameter with all zero coefficients can be left
+        // behind by the removal of space dimensions.
+        if (gen.all_homogeneous_terms_are_zero()) {
+          continue;
+        }
+        return false;
+      }
+      if (gen != first_point) {
         return false;
       }
     }
